@@ -14,6 +14,15 @@ TECH = {
  "C12":"metamorphic testing: re-rendering, fresh type spaces, fresh processes, key-order/whitespace permutations, real cargo-typify binary",
  "C13":"exhaustive decision table against a reference decision function (semver verdicts by construction, cross-checked)",
  "C16":"stateful property-based testing: generated API histories interpreted step by step with invariants after every step and split-vs-single-call comparison",
+ "C04":"property-based testing over generated Rust type universes: real serde+schemars origin crate and typify-generated crate exchange JSON (round-trip / differential oracle, both ingestion routes)",
+ "C06":"property-based testing: defaults generated per type kind (valid instances and single-edit mutants, classified by python jsonschema); oracle = refusal at add time or realised default (serde / builder / Default impl) containing the schema default",
+ "C09":"metamorphic testing: all permutations of generated allOf compositions compiled side by side; python jsonschema decides validity under the conjunction; accept vectors and round trips compared across orders",
+ "C11":"property-based testing: probe strings through parse/TryFrom/Display of compiled generated types, differential oracle against serde (Deserialize/Serialize of the same string)",
+ "C14":"metamorphic testing: same document under default and generated settings compiled side by side (wire behaviour of unrelated types must agree) plus syn obligations at every use site",
+ "C15":"differential testing of front-ends: cargo-typify binary and import_types! expansion (nightly -Zunpretty=expanded, twin crate) against the builder under translated settings, token comparison",
+ "C17":"property-based testing: iter_types() answers compared with the syn index of the output; compiled bound assertions for identifiers, builder paths and has_impl claims",
+ "C18":"property-based testing: generated builder scripts (all property subsets, raw-string setters) executed against the compiled output; oracle = required-set coverage, equality with deserialization, rebuild identity",
+ "C19":"property-based testing: one compiled trait-bound assertion per (type, promised trait set) for every named type the API yields, syn visibility scan",
 }
 checks=[]
 for p in props:
